@@ -100,6 +100,23 @@ func opBLay(count uint64, t int) string {
 	})
 }
 
+func opBBits(count uint64) string {
+	return fmt.Sprintf("%d", compact.VerifC10BucketBitsForCount(count))
+}
+
+// opBBSweep: bucketBitsForCount over [lo, hi) as change points "n:bits" (run-length form).
+func opBBSweep(lo, hi uint64) string {
+	var xs []string
+	last := -1
+	for n := lo; n < hi; n++ {
+		if b := compact.VerifC10BucketBitsForCount(n); b != last {
+			xs = append(xs, fmt.Sprintf("%d:%d", n, b))
+			last = b
+		}
+	}
+	return hx.List(xs)
+}
+
 func opTile(x, y, z uint64) string {
 	id := b6.TileIDFromXYZ(uint(x), uint(y), uint(z))
 	x2, y2, z2 := id.ToXYZ()
@@ -384,6 +401,16 @@ func genOp(c *hx.Ctx) {
 			c.Op(fmt.Sprintf("hdr %d %d %s %s 0", b2, t2, u(id), u(tag)), opHdr(b2, t2, id, tag, 0))
 		}
 	case 15:
+		if r.Bool() {
+			k := uint(r.Intn(64))
+			n := uint64(1)<<k + uint64(r.Intn(7)) - 3
+			if r.Chance(1, 3) {
+				n = word(r)
+			}
+			c.Op("bbits "+u(n), opBBits(n))
+			c.Note("op:bbits")
+			return
+		}
 		count := uint64(r.Intn(1 << uint(r.Intn(17))))
 		if r.Chance(1, 4) {
 			count = uint64(r.Intn(5))
@@ -505,6 +532,19 @@ func main() {
 			var b2, t2 int
 			fmt.Sscanf(opLay(1, 2), "%d %d", &b2, &t2)
 			c.Op(fmt.Sprintf("hdr %d %d %s 1 3", b2, t2, u(1<<63+5)), opHdr(b2, t2, 1<<63+5, 1, 3))
+			// bucketBitsForCount (float) against the integer model: every count below 2^24 (2^28 in the thorough tier)
+			top := uint64(1) << 24
+			if c.Thorough() {
+				top = 1 << 28
+			}
+			for lo := uint64(0); lo < top; lo += 1 << 22 {
+				c.Op(fmt.Sprintf("bbsweep %d %d", lo, lo+1<<22), opBBSweep(lo, lo+1<<22))
+			}
+			for k := uint(1); k < 64; k++ {
+				for _, d := range []uint64{0, 1, 1<<64 - 1} {
+					c.Op("bbits "+u(uint64(1)<<k+d), opBBits(uint64(1)<<k+d))
+				}
+			}
 			// boundaries of the stated domains
 			c.Op("tile 536870911 536870911 29", opTile(536870911, 536870911, 29))
 			c.Op("tile 0 0 0", opTile(0, 0, 0))
